@@ -272,7 +272,9 @@ func c08SpawnChild(tmp string, id int, canonFile, legacyFile string) (map[string
 	outp := filepath.Join(tmp, fmt.Sprintf("child-%d.json", id))
 	res := filepath.Join(tmp, fmt.Sprintf("child-%d.res", id))
 	cmd := exec.Command(os.Args[0], "-prop", "C08child", "-tier", "quick", "-seed", "1", "-dir", tmp, "-out", res)
-	cmd.Env = []string{"C08_CHILD_IN=" + canonFile, "C08_CHILD_OUT=" + outp, "C08_CHILD_LEGACY=" + legacyFile, "HOME=" + tmp, "PPROF_TMPDIR=" + tmp, "PPROF_BINARY_PATH=" + tmp, "PATH=/nonexistent", "TZ=UTC"}
+	ev := c08EnvVariant(tmp, id%100, false)
+	cmd.Env = append([]string{"C08_CHILD_IN=" + canonFile, "C08_CHILD_OUT=" + outp, "C08_CHILD_LEGACY=" + legacyFile}, ev.Env...)
+	cmd.Dir = ev.Dir
 	var stderr bytes.Buffer
 	cmd.Stderr = &stderr
 	if err := cmd.Run(); err != nil {
@@ -318,6 +320,7 @@ func c08WebCompare(c *Ctx, canons []string, procs int, legacy []string) {
 			return
 		}
 	}
+	c08EnvPrepare(tmp)
 	var jobs []*job
 	for i, cn := range canons {
 		if err := os.WriteFile(filepath.Join(tmp, fmt.Sprintf("p%d.canon", i)), []byte(cn), 0o644); err != nil {
